@@ -17,7 +17,7 @@ const (
 type storedMessages struct {
 	logger                Logger
 	lock                  sync.RWMutex
-	lastUsed              time.Time
+	lastUsed              uint64 // GC epoch in which the list was created or last added to
 	messages              []*IncMessage
 	messageCountPerSender map[uint16]int
 }
@@ -26,7 +26,7 @@ type MessageHandler interface {
 	HandleMessage(msg *IncMessage)
 }
 
-func (sm *storedMessages) add(msg *IncMessage) {
+func (sm *storedMessages) add(msg *IncMessage, epoch uint64) {
 	verifYield("add")
 	sm.lock.Lock()
 	defer sm.lock.Unlock()
@@ -40,11 +40,17 @@ func (sm *storedMessages) add(msg *IncMessage) {
 	sm.messageCountPerSender[msg.Source]++
 
 	sm.messages = append(sm.messages, msg)
-	now := time.Now()
 
-	if now.After(sm.lastUsed) {
-		sm.lastUsed = now
+	if epoch > sm.lastUsed {
+		sm.lastUsed = epoch
 	}
+}
+
+func (sm *storedMessages) lastUsedEpoch() uint64 {
+	sm.lock.RLock()
+	defer sm.lock.RUnlock()
+
+	return sm.lastUsed
 }
 
 func (sm *storedMessages) senders() []uint16 {
@@ -138,7 +144,11 @@ func (b *Box) getOrCreateMessagesByTopic(topic []byte) *storedMessages {
 
 	messages, exists = b.pendingMessages[string(topic)]
 	if !exists {
-		messages = &storedMessages{messageCountPerSender: make(map[uint16]int), logger: b.Logger}
+		messages = &storedMessages{
+			messageCountPerSender: make(map[uint16]int),
+			logger:                b.Logger,
+			lastUsed:              atomic.LoadUint64(&b.currentGCEpochNum),
+		}
 	}
 
 	b.pendingMessages[string(topic)] = messages
@@ -171,7 +181,7 @@ func (b *Box) storeOrForward(msg *IncMessage) {
 	b.markTopicForSender(msg)
 
 	messages := b.getOrCreateMessagesByTopic(msg.Topic)
-	messages.add(msg)
+	messages.add(msg, atomic.LoadUint64(&b.currentGCEpochNum))
 }
 
 func (b *Box) markTopicForSender(msg *IncMessage) {
@@ -254,13 +264,13 @@ func (b *Box) mark(now uint64, epochsAfterWhichWeGC time.Duration) []string {
 	defer b.lock.RUnlock()
 
 	for topic, messages := range b.pendingMessages {
-		if float64(messages.lastUsed.Unix())+b.GCExpire.Seconds() < float64(now) {
+		if lastUsed := messages.lastUsedEpoch(); now > lastUsed && time.Duration(now-lastUsed) > epochsAfterWhichWeGC {
 			topics2Delete = append(topics2Delete, topic)
 		}
 	}
 
 	for topic, lastSent := range b.startedSending {
-		if time.Duration(now-lastSent) > epochsAfterWhichWeGC {
+		if now > lastSent && time.Duration(now-lastSent) > epochsAfterWhichWeGC {
 			topics2Delete = append(topics2Delete, topic)
 		}
 	}
